@@ -163,6 +163,15 @@ def _body_lines(body: dict, params: list[str], env_name: str = "_E") -> list[str
         # two such bodies differ ONLY in the attribute name they call (identical bytecode, different name table)
         assert body["m"] in ("upper", "lower", "title", "swapcase")
         return [f"return ({body['t']!r}, str({first}).{body['m']}())"]
+    if b == "mutAppend":
+        # an impure consumer: grows the list it RECEIVED in place (Python side only)
+        return [f"if isinstance({first}, list): {first}.append({body['k']!r})", f"return ({body['t']!r}, len({first}) if isinstance({first}, list) else -1)"]
+    if b == "lam":
+        # the constant lives in a NESTED code object (a lambda), not in the function's own constants (Python side only)
+        return [f"return ({body['t']!r}, (lambda _y: (_y, {int(body['k'])}))({first}))"]
+    if b == "closure":
+        # factory-made function: `_c` is a variable captured from the enclosing factory call (Python side only)
+        return [f"return ({body['t']!r}, _c) + {tup}"]
     if b == "nonBool":
         return ["return 1"]
     if b == "wrongArity":
@@ -214,9 +223,23 @@ def make_function(spec: dict, fnid: str, env: Env, *, is_async: bool) -> Any:
         lines.append("    finally:")
         lines.append(f"        if _E.trace is not None: _E.trace.append(('finish', {fnid!r}))")
         lines.append("        _E.inflight -= 1")
-    src = "\n".join(lines)
     glob = {"_E": env, "_DEF": defaults, "_V": py_val, "_D": py_dec}
-    exec(src, glob)  # noqa: S102 - generated from a closed body language
+    if spec["body"]["b"] == "closure":
+        # def _factory(_c): <the function> ; return it — the text of two such functions is IDENTICAL whatever was captured, and it is
+        # retrievable (registered with linecache), as for a function made by a factory defined in a file
+        import hashlib
+        import linecache
+
+        lines = ["def _factory(_c):"] + ["    " + ln for ln in lines] + [f"    return {fname}", f"{fname} = _factory(_CAPTURED)", ""]
+        src = "\n".join(lines)
+        glob["_CAPTURED"] = py_val(spec["body"]["c"])
+        glob["__name__"] = "verif_generated"
+        file = f"/verif-generated/closure_{hashlib.sha1(src.encode()).hexdigest()[:12]}.py"
+        linecache.cache[file] = (len(src), None, src.splitlines(True), file)
+        exec(compile(src, file, "exec"), glob)  # noqa: S102 - generated from a closed body language
+    else:
+        src = "\n".join(lines)
+        exec(src, glob)  # noqa: S102 - generated from a closed body language
     fn = glob[fname]
     fn.__name__ = spec["name"]
     fn.__qualname__ = spec["name"]
